@@ -1,11 +1,22 @@
 import ImathVerif.Props.C01Preds
 import ImathVerif.Enum.C01.All
+import ImathVerif.Lemmas.HalfRNE
 /-!
 # C01 — float<->half conversion is exact IEEE-754 binary16, round-to-nearest-even
 
 Property theorems only.  The model (`Model/Half.lean`) is tied to
 /repo/src/Imath/half.h by exhaustive correspondence over all 2^32 floats and
 2^16 halves on every run; `Gen.tableEntry` is regenerated from toFloat.h.
+
+The `h2f_*`, `table_*`, `generator_*`, `roundtrip` theorems are kernel enumerations over
+the 2^16 half patterns.  The `f2h_*` theorems quantify over all 2^32 float patterns and
+are structural proofs (`Lemmas/HalfRNE.lean`): `f2h v = sign ||| f2hMag (v mod 2^31)`,
+and the magnitude is bracketed between neighbouring binary16 values and resolved at the
+midpoint with ties to even.
+
+Scales: `fval u` is the float magnitude times 2^149, `hval149 m` the half magnitude on the
+same scale (`hval149 0x7c00 = 2^16 * 2^149`), `IsRNE16 X r` says `r` is the nearest
+magnitude pattern to `X` with ties to the even pattern (Spec/HalfSpec.lean).
 -/
 namespace ImathVerif.Half.C01
 open ImathVerif ImathVerif.Half ImathVerif.Gen ImathVerif.Enum.C01
@@ -57,5 +68,112 @@ theorem roundtrip : ∀ h, h < 65536 → isNan h = false → f2h (h2f h) = h := 
   intro h hh hn
   have := p_roundtrip_all h hh
   simpa [p_roundtrip, hn] using this
+
+/-! ### float -> half, all 2^32 patterns -/
+
+/-- For every finite float (either sign), the magnitude bits of `f2h` are the
+round-to-nearest-even binary16 magnitude of the float's absolute value
+(0x7c00 = infinity standing for 2^16, the IEEE overflow convention). -/
+theorem f2h_nearest : ∀ v, v < 4294967296 → v % 2147483648 < 0x7f800000 →
+    IsRNE16 (fval (v % 2147483648)) (f2h v % 32768) := by
+  intro v hv hfin
+  rw [f2h_mod v hv]
+  exact f2hMag_rne _ hfin
+
+-- non-vacuity: a tie with even significand (rounds down), one with odd significand (rounds up),
+-- and a negative subnormal-result input
+example : (0x38801000 : Nat) < 4294967296 ∧ 0x38801000 % 2147483648 < 0x7f800000 ∧
+    f2h 0x38801000 = 0x0400 := by decide
+example : (0x38803000 : Nat) < 4294967296 ∧ 0x38803000 % 2147483648 < 0x7f800000 ∧
+    f2h 0x38803000 = 0x0402 := by decide
+example : (0xb3000001 : Nat) < 4294967296 ∧ 0xb3000001 % 2147483648 < 0x7f800000 ∧
+    f2h 0xb3000001 = 0x8001 := by decide
+
+/-- the result fits 16 bits and carries the float's sign bit (all inputs, NaN and inf included) -/
+theorem f2h_sign : ∀ v, v < 4294967296 → f2h v < 65536 ∧ f2h v / 32768 = v / 2147483648 :=
+  f2h_div
+
+example : (0xffc01000 : Nat) < 4294967296 ∧ f2h 0xffc01000 = 0xfe00 ∧
+    (0xffc01000 : Nat) / 2147483648 = 1 := by decide
+
+/-- 0x477ff000 is the float 65520 (on the 2^149 scale) -/
+theorem fval_65520 : fval 0x477ff000 = 65520 * 2 ^ 149 := by decide
+
+/-- `fval` is strictly increasing in the magnitude bits, so comparisons of magnitude bit
+patterns are comparisons of absolute values -/
+theorem fval_strictMono : ∀ a b, a < b → fval a < fval b := fval_lt
+
+theorem fval_le_iff_le : ∀ a b, fval a ≤ fval b ↔ a ≤ b := fval_le_iff
+
+/-- finite or infinite input: the result is (signed) infinity exactly from bit pattern
+0x477ff000 (= 65520) upwards -/
+theorem f2h_overflow : ∀ v, v < 4294967296 → v % 2147483648 ≤ 0x7f800000 →
+    (f2h v % 32768 = 0x7c00 ↔ 0x477ff000 ≤ v % 2147483648) := by
+  intro v hv hle
+  rw [f2h_mod v hv]
+  exact f2hMag_inf_iff _ hle
+
+/-- the same on the value scale: a finite float becomes infinity iff its magnitude is ≥ 65520 -/
+theorem f2h_overflow_val : ∀ v, v < 4294967296 → v % 2147483648 < 0x7f800000 →
+    (f2h v % 32768 = 0x7c00 ↔ 65520 * 2 ^ 149 ≤ fval (v % 2147483648)) := by
+  intro v hv hfin
+  rw [f2h_overflow v hv (by omega), ← fval_65520, fval_le_iff]
+
+/-- infinite input gives infinity of the same sign -/
+theorem f2h_inf : ∀ v, v < 4294967296 → v % 2147483648 = 0x7f800000 →
+    f2h v = (v / 2147483648) * 32768 + 0x7c00 := by
+  intro v hv hinf
+  have h1 := (f2h_overflow v hv (by omega)).2 (by omega)
+  have h2 := f2h_sign v hv
+  omega
+
+example : (0xc77ff000 : Nat) < 4294967296 ∧ 0xc77ff000 % 2147483648 ≤ 0x7f800000 ∧
+    f2h 0xc77ff000 = 0xfc00 ∧ f2h 0x477fefff = 0x7bff := by decide
+example : (0xff800000 : Nat) < 4294967296 ∧ 0xff800000 % 2147483648 = 0x7f800000 ∧
+    f2h 0xff800000 = 0xfc00 := by decide
+
+/-- the result is a zero (of the float's sign, by `f2h_sign`) iff the magnitude is ≤ 2^-25
+(`2^124` on the 2^149 scale).  No finiteness hypothesis is needed: for inf/NaN patterns
+both sides are false. -/
+theorem f2h_flush : ∀ v, v < 4294967296 →
+    (fval (v % 2147483648) ≤ 2 ^ 124 ↔ f2h v % 32768 = 0) := by
+  intro v hv
+  have e : fval 0x33000000 = 2 ^ 124 := by decide
+  rw [f2h_mod v hv, f2hMag_zero_iff _ (Nat.mod_lt _ (by decide)), ← e, fval_le_iff]
+  omega
+
+example : (0xb3000000 : Nat) < 4294967296 ∧ f2h 0xb3000000 = 0x8000 ∧ f2h 0x33000001 = 1 := by
+  decide
+
+/-- NaN stays NaN and keeps the top ten payload bits, or gets payload 1 when those are all
+zero (sign: `f2h_sign`) -/
+theorem f2h_nan : ∀ v, v < 4294967296 → 0x7f800000 < v % 2147483648 →
+    (f2h v / 1024) % 32 = 31 ∧ f2h v % 1024 ≠ 0 ∧
+    f2h v % 1024 = (if (v % 8388608) / 8192 = 0 then 1 else (v % 8388608) / 8192) := by
+  intro v hv hnan
+  have h1 := f2h_mod v hv
+  have h2 := f2hMag_nan _ hnan
+  have e : v % 2147483648 % 8388608 = v % 8388608 := by omega
+  rw [e] at h2
+  rw [h2] at h1
+  have hb : v % 8388608 / 8192 < 1024 := by omega
+  split at h1 <;> split <;> omega
+
+example : (0xff802000 : Nat) < 4294967296 ∧ 0x7f800000 < 0xff802000 % 2147483648 ∧
+    f2h 0xff802000 = 0xfc01 ∧ f2h 0x7f800001 = 0x7c01 ∧ f2h 0x7fc00000 = 0x7e00 := by decide
+
+/-- results in the subnormal/zero range (inputs below 2^-14) are correctly rounded too:
+a corollary of `f2h_nearest` together with the bound on the result -/
+theorem f2h_subnormal_correct : ∀ v, v < 4294967296 → v % 2147483648 < 0x38800000 →
+    f2h v % 32768 ≤ 0x400 ∧ IsRNE16 (fval (v % 2147483648)) (f2h v % 32768) := by
+  intro v hv hs
+  refine ⟨?_, f2h_nearest v hv (by omega)⟩
+  rw [f2h_mod v hv]
+  by_cases h : v % 2147483648 < 0x33000001
+  · have := (f2hMag_zero_iff _ (Nat.mod_lt _ (by decide))).2 h; omega
+  · exact (f2hMag_sub_bounds _ (by omega) hs).2
+
+example : (0x387fffff : Nat) < 4294967296 ∧ 0x387fffff % 2147483648 < 0x38800000 ∧
+    f2h 0x387fffff = 0x0400 := by decide
 
 end ImathVerif.Half.C01
